@@ -81,6 +81,8 @@ def trivial(e):
     ev = e.get("ev")
     if ev == "prim":
         return not e.get("u") and not e.get("data")
+    if ev in ("sched", "stress"):
+        return len(set(e.get("schedule", [0, 1]))) < 2
     if ev == "tag":
         return not any(f["plenc"]["form"] == "none" for st in e.get("structs", []) for f in st["fields"])
     if ev == "jsonout":
